@@ -234,7 +234,7 @@ pub fn run(args: &Args, rep: &mut Report) {
         let mut r = rng.fork(i);
         // unbounded classes 1 and 2 are known to hang (see KNOWN_FINDINGS) and cost ~1 s of wall time per
         // virtual second while they do: they are explored sparsely
-        let case = match r.below(if thorough { 12 } else { 24 }) {
+        let case = match r.below(24) {
             0 => gen_unbounded(&mut r, sseed, 1),
             1 => gen_unbounded(&mut r, sseed, 2),
             2..=5 => gen_unbounded(&mut r, sseed, 0),
